@@ -36,6 +36,20 @@ CHECKS = {
         "assumptions": A_COMMON + A_STORE,
         "maxpaths": 3000000,
     },
+    "C09": {
+        "quick": [
+            {"name": NODE + "ZZ_C09_P1small", "reach": ["P1 end"], "bound": "one hostile transaction (garbage bytes | empty | TrxProto with type 0..9, sender in {known, unknown, 19 bytes}, receiver in {known, 21 bytes, zero}, payload in {absent, garbage, boundary-valued message}, symbolic amount/gas/nonce/time/price, signature in {garbage, genuine}) to DeliverTx or CheckTx; then a well-formed transfer, EndBlock, Commit", "validate": 6},
+            {"name": NODE + "ZZ_C09_P2", "reach": ["P2 end"], "bound": "one Query: 11 paths x data length in {0,19,20,32,39,40,41} (vm_call: < 40 only) x height in [-2,5]; then an empty block"},
+        ],
+        "thorough": [
+            {"name": NODE + "ZZ_C09_P1", "reach": ["P1 end"], "bound": "as P1small with 7 sender shapes x 7 receiver shapes x 3 signature shapes", "validate": 20},
+            {"name": NODE + "ZZ_C09_P2", "reach": ["P2 end"], "bound": "as quick"},
+        ],
+        "bounds": "one hostile request after genesis + 1-2 empty blocks, 1 validator, 2 funded accounts; field lengths enumerated, numeric fields symbolic over their full range",
+        "outside": "panics inside protobuf/RLP/JSON/iavl/go-ethereum on hostile bytes (A-CODEC: decoding is total - error or a well-typed message); vm_call with >= 40 bytes (needs the consensus engine's RPC environment); resource exhaustion; A-SUPPLY (balances < 2^100) and A-GOV (gas price < 2^64) exclude the AmountToPower / fee+amount overflow panics listed in DESIGN appendix B #10/#11",
+        "assumptions": A_COMMON + A_STORE + ["A-SIG: signature recovery yields the signer's address only for exactly the signed message", "A-HASH", "A-EVM (contract-type transactions reach the EVM model)", "A-GOV"],
+        "timeout_s": {"quick": 900, "thorough": 7200},
+    },
     "C10": {
         "quick": [
             {"name": STAKE + "ZZ_C10_U1", "reach": ["U1 end"], "bound": "all pairs of subsets of a 4-address pool (address-sorted, duplicate-free), symbolic powers"},
